@@ -1,10 +1,12 @@
 import Driver.ExitStack
+import Driver.GroupBy
 open Lean
 
 def dispatch (j : Json) : Except String Json := do
   let m ← Drv.getStr j "m"
   match m with
   | "exitstack" => Drv.ExitStack.run j
+  | "groupby" => Drv.GroupBy.run j
   | _ => throw s!"unknown machine {m}"
 
 partial def loop (h : IO.FS.Stream) (out : IO.FS.Stream) : IO Unit := do
